@@ -325,7 +325,7 @@ def _loop_form(body, how, target):
     """PRE; for ...: (... return X ...); POST  at a call site `t = H(...)` is the loop with `t = X; break` for each return and POST as
     the loop's else branch (POST runs exactly when the loop ends without a return).  None when the helper has another shape."""
     idx = [i for i, st in enumerate(body) if _has_return(st)]
-    if not idx or not isinstance(body[idx[0]], ast.For):
+    if not idx or not isinstance(body[idx[0]], (ast.For, ast.While)):
         return None
     i = idx[0]
     loop, post = body[i], body[i + 1:]
